@@ -10,7 +10,9 @@ import (
 	"errors"
 	"flag"
 	"fmt"
+	"io"
 	"math/rand"
+	"net"
 	"os"
 	"strings"
 	"sync"
@@ -18,6 +20,7 @@ import (
 	"time"
 
 	netty "github.com/go-netty/go-netty"
+	"github.com/go-netty/go-netty/transport"
 	"github.com/go-netty/go-netty/utils/pool/pbuffer"
 	"github.com/go-netty/go-netty/utils/pool/pbytes"
 	"nvharness/mock"
@@ -273,6 +276,51 @@ func poolOps(rng *rand.Rand, _ bool) {
 	wg.Wait()
 }
 
+// an in-memory net.Conn without any synchronisation of its own on the write side beyond what net.Pipe gives:
+// the library's buffered transport (bufio.Writer) sits on top, as with a TCP connection
+type bufFactory struct{ mock.Factory }
+
+func newBufFactory() *bufFactory { return &bufFactory{*mock.NewFactory()} }
+
+func (f *bufFactory) Connect(o *transport.Options) (transport.Transport, error) {
+	a, b := net.Pipe()
+	go io.Copy(io.Discard, b) // the peer drains
+	return transport.NewTransport(a, 0, 512), nil
+}
+
+// writes x Close on an async channel over the library's write-buffered transport
+func bufferedOps(rng *rand.Rand, _ bool) {
+	f := newBufFactory()
+	chf := netty.NewAsyncWriteChannel(4, true)
+	init := func(ch netty.Channel) { ch.Pipeline().AddLast(sink{}) }
+	bs := netty.NewBootstrap(netty.WithTransport(f), netty.WithChannel(chf), netty.WithClientInitializer(init), netty.WithChildInitializer(init))
+	ch, err := bs.Connect("mock://c:1")
+	if err != nil {
+		panic(err)
+	}
+	var wg sync.WaitGroup
+	for g := 0; g < 3; g++ {
+		wg.Add(1)
+		go func(g int) {
+			defer wg.Done()
+			for i := 0; i < 60; i++ {
+				if (g+i)%2 == 0 {
+					ch.Write1(bytes.Repeat([]byte{byte(g)}, 100+i))
+				} else {
+					ch.Writev([][]byte{bytes.Repeat([]byte{byte(g)}, 300), []byte("x")})
+				}
+				op()
+				if i%7 == 0 {
+					time.Sleep(time.Duration(50+g*20) * time.Microsecond) // let the sender release and re-acquire
+				}
+			}
+		}(g)
+	}
+	wg.Wait()
+	ch.Close(nil)
+	bs.Shutdown()
+}
+
 var scenarios = []struct {
 	name  string
 	f     func(*rand.Rand, bool)
@@ -283,6 +331,7 @@ var scenarios = []struct {
 	{"channel-sync", channelOps, false, 1},
 	{"bootstrap-async", bootstrapOps, true, 1},
 	{"bootstrap-sync", bootstrapOps, false, 1},
+	{"channel-buffered", bufferedOps, true, 2},
 	{"idle", idleOps, true, 150},
 	{"pools", poolOps, false, 10},
 }
